@@ -47,6 +47,30 @@ Section EditSpecProofs.
       Forall2 (fun a b => eqb a b = true) x y -> Valid x y [mkEdit Emit x []].
   Proof. intros x y H. cbn. exists [], y, []. rewrite !app_nil_r. auto 6. Qed.
 
+  (* ---- execution --------------------------------------------------------------------- *)
+
+  Section Exec.
+  Hypothesis eqb_refl : forall x, eqb x x = true.
+
+  (* a valid script consumes exactly l; its output is r up to eqb, position by position *)
+  Theorem Valid_exec : forall es l r,
+      Valid l r es -> consumed es = l /\ EqLists eqb (produced es) r.
+  Proof.
+    unfold EqLists. induction es as [|e es IH]; intros l r H; cbn in *.
+    - destruct H as [-> ->]. split; [reflexivity | constructor].
+    - destruct (eop e).
+      + destruct H as (l' & -> & Hy & H). destruct (IH _ _ H) as [<- H2]. auto.
+      + destruct H as (l' & y & r' & -> & -> & Hy & Hf & H). destruct (IH _ _ H) as [<- H2].
+        split; [reflexivity | now apply Forall2_app].
+      + destruct H as (r' & -> & Hx & H). destruct (IH _ _ H) as [<- H2].
+        split; [reflexivity|]. apply Forall2_app; [|assumption].
+        clear -eqb_refl. induction (Y e); constructor; [apply eqb_refl | assumption].
+      + destruct H as (l' & r' & -> & -> & H). destruct (IH _ _ H) as [<- H2].
+        split; [reflexivity|]. apply Forall2_app; [|assumption].
+        clear -eqb_refl. induction (Y e); constructor; [apply eqb_refl | assumption].
+  Qed.
+  End Exec.
+
   (* ---- the checkers ------------------------------------------------------------------ *)
 
   Lemma take_span_iff : forall (f : T -> T -> bool) x l l',
